@@ -11,12 +11,21 @@ if [ "$REPO" != "/repo" ]; then
 fi
 ALL="C01 C02 C03 C04 C05 C06 C07 C08 C09 C10 C11 C12 C13 C14 C15 C16 C17 C18 C19 C20"
 ./check build || exit 2
+# optional sharding: seeded_sweep.sh <k> <n> handles every n-th change starting with the k-th
+K="${1:-0}"; N="${2:-1}"; I=0
 : > seeded_results.txt
-for D in seeded/*/; do
+for D in seeded/C*/; do
+    I=$((I+1)); [ $((I % N)) -eq "$K" ] || continue
     ID=$(basename "$D"); P=${ID%%-*}
     git -C "$REPO" checkout -q -- . 
     if ! git -C "$REPO" apply "$ROOT/$D/patch.diff" 2>/dev/null; then echo "$ID APPLY-FAILED" >> seeded_results.txt; continue; fi
-    OUT=$(./check $P --tier quick 2>&1); RC=$?
+    if [ -n "$VERIF_SWEEP_LEAN" ] && { [ "$P" = C18 ] || [ "$P" = C19 ]; }; then
+        # the simulation engine alone first (the Miri rebuild per change dominates the time); all engines if it is quiet
+        OUT=$(./check $P --tier quick --only "" 2>&1); RC=$?
+        [ $RC -eq 0 ] && { OUT=$(./check $P --tier quick 2>&1); RC=$?; }
+    else
+        OUT=$(./check $P --tier quick 2>&1); RC=$?
+    fi
     RULE=$(echo "$OUT" | grep -m1 "rule=" | cut -c1-200)
     LINE="$ID own=$P rc=$RC $RULE"
     if [ $RC -eq 0 ]; then
